@@ -25,6 +25,7 @@ import (
 	sdkerrors "github.com/cosmos/cosmos-sdk/types/errors"
 	authtypes "github.com/cosmos/cosmos-sdk/x/auth/types"
 	banktypes "github.com/cosmos/cosmos-sdk/x/bank/types"
+	crisistypes "github.com/cosmos/cosmos-sdk/x/crisis/types"
 	distrtypes "github.com/cosmos/cosmos-sdk/x/distribution/types"
 	govtypes "github.com/cosmos/cosmos-sdk/x/gov/types"
 	govv1 "github.com/cosmos/cosmos-sdk/x/gov/types/v1"
@@ -54,6 +55,7 @@ const (
 )
 
 var typeURL = map[int]string{
+	tyNone:     "", // a proposal without messages is looked up under the empty key
 	tyEGF:      sdk.MsgTypeURL(&distrtypes.MsgCommunityPoolSpend{}),
 	tySend:     sdk.MsgTypeURL(&banktypes.MsgSend{}),
 	tyXParams:  sdk.MsgTypeURL(&crosschaintypes.MsgUpdateParams{}),
@@ -432,7 +434,7 @@ func newHist(seed int64, idx int, class string) *hist {
 	if idx < 0 {
 		mind = 10_000
 	}
-	if idx == -1 {
+	if idx == -1 || idx == -7 {
 		p.Quorum = "0.999" // any partial turnout misses the default quorum
 	}
 	p.MinDeposit = sdk.NewCoins(lib.FX(mind))
@@ -836,6 +838,22 @@ func (h *hist) opSubmitGovDeposit(proposer int64, target uint64, amount, amt *bi
 		m := &govv1.MsgDeposit{ProposalId: target, Depositor: h.gov, Amount: sdk.NewCoins(sdk.NewCoin(denomFX, sdkmath.NewIntFromBigInt(amount)))}
 		info.Types, info.URLs = []int{9}, []string{sdk.MsgTypeURL(m)}
 		return []sdk.Msg{m}, []mMsg{{Type: 9, Act: "AFail"}}
+	})
+}
+
+// crisis MsgVerifyInvariant sent by the governance module account: the handler first charges the
+// crisis constant fee to the sender — i.e. out of what the account holds for open proposals — and
+// then runs the invariant.  Monitor only (no model action).
+func (h *hist) opSubmitCrisis(proposer int64, module, route string, amt *big.Int) {
+	h.noCorr = true
+	h.opSubmitWith("crisis", proposer, amt, false, false, func(info *propInfo) ([]sdk.Msg, []mMsg) {
+		fee, err := h.c.App.CrisisKeeper.ConstantFee.Get(h.c.Ctx)
+		lib.Must(err)
+		info.GovSend = fee.Amount.BigInt()
+		info.sendTo = -7
+		m := &crisistypes.MsgVerifyInvariant{Sender: h.gov, InvariantModuleName: module, InvariantRoute: route}
+		info.Types, info.URLs = []int{10}, []string{sdk.MsgTypeURL(m)}
+		return []sdk.Msg{m}, []mMsg{{Type: 10, Act: "AFail"}}
 	})
 }
 
@@ -1279,17 +1297,25 @@ func (h *hist) monitor(o *obsT, op string, opErr error) {
 			if p.Expedited {
 				want = int64(h.params.ExpeditedVotingPeriod.Seconds())
 			}
-			if len(info.URLs) > 0 {
-				if cp, ok := cust[info.URLs[0]]; ok {
-					want = cp.period
+			if cp, ok := cust[typeKey(info)]; ok {
+				want = cp.period
+			}
+			{
+				stored := int64(h.params.VotingPeriod.Seconds())
+				if p.Expedited {
+					stored = int64(h.params.ExpeditedVotingPeriod.Seconds())
+				}
+				if cp, ok := cust[h.liveKey(info)]; ok {
+					stored = cp.period
+				}
+				if got := p.VEnd - p.VStart; got != stored {
+					h.fail("C15:stored-period-not-used", fmt.Sprintf("proposal %d (%v) got voting period %ds; in force for its lookup key %q: %ds", p.ID, info.URLs, got, h.liveKey(info), stored))
 				}
 			}
 			if got := p.VEnd - p.VStart; got != want {
 				sig := "C15:voting-period"
-				if len(info.URLs) > 0 {
-					if _, ok := cust[info.URLs[0]]; ok {
-						sig = "C15:custom-params-ignored:period"
-					}
+				if _, ok := cust[typeKey(info)]; ok {
+					sig = "C15:custom-params-ignored:period"
 				}
 				if _, ok := cust[typeURL[tyAny]]; ok {
 					sig = "C15:custom-params-ignored:period-any-key"
@@ -1517,10 +1543,8 @@ func (h *hist) monitorEndBlock(o *obsT, before map[string][]lib.KV, custBefore m
 		if p.Expedited && !q.Expedited && q.Status == 2 {
 			h.stats["expedited-converted"]++
 			want := int64(h.params.VotingPeriod.Seconds())
-			if len(info.URLs) > 0 {
-				if cp, ok := custBefore[info.URLs[0]]; ok {
-					want = cp.period
-				}
+			if cp, ok := custBefore[typeKey(info)]; ok {
+				want = cp.period
 			}
 			if got := q.VEnd - q.VStart; got != want {
 				h.fail("C15:custom-params-ignored:period-converted", fmt.Sprintf("converted expedited proposal %d got voting period %ds, configured for its type: %ds", p.ID, got, want))
@@ -1609,6 +1633,29 @@ func diffKV(a, b []lib.KV) string {
 
 // checkQuorum recomputes the verdict from the stored tally with the quorum configured for the
 // proposal's message type and compares it with what happened.
+// liveKey: the key under which the tree under test looks up a proposal's custom parameters (what
+// getProposalMsgType returns): with the lookup as it is, "/google.protobuf.Any" for every proposal
+// that has messages and "" for a metadata-only one; with the intended lookup, the first message's URL.
+// typeKey: the key a proposal's message type is configured under — its first message's type URL,
+// and the empty key for a proposal without messages (that is what getProposalMsgType returns for it
+// under either reading of the lookup)
+func typeKey(info *propInfo) string {
+	if len(info.URLs) == 0 {
+		return ""
+	}
+	return info.URLs[0]
+}
+
+func (h *hist) liveKey(info *propInfo) string {
+	if len(info.URLs) == 0 {
+		return ""
+	}
+	if h.fixed {
+		return info.URLs[0]
+	}
+	return typeURL[tyAny]
+}
+
 func (h *hist) checkQuorum(p, q *pObs, info *propInfo, cust map[string]cpT) {
 	tb, err := h.c.App.StakingKeeper.TotalBondedTokens(h.c.Ctx)
 	lib.Must(err)
@@ -1652,13 +1699,21 @@ func (h *hist) checkQuorum(p, q *pObs, info *propInfo, cust map[string]cpT) {
 	defQ := decZ(h.params.Quorum)
 	typeQ := defQ
 	configured := false
-	if len(info.URLs) > 0 {
-		if cp, ok := cust[info.URLs[0]]; ok {
-			typeQ = cp.quorum
-			configured = true
-		}
+	if cp, ok := cust[typeKey(info)]; ok {
+		typeQ = cp.quorum
+		configured = true
 	}
 	passed := q.Status == 3 || q.Status == 5
+	// whatever key the lookup derives: the outcome follows the quorum STORED under it (any valid
+	// value, 0 and 1 included), and the default only when nothing is stored
+	storedQ, stored := defQ, false
+	if cp, ok := cust[h.liveKey(info)]; ok {
+		storedQ, stored = cp.quorum, true
+	}
+	if w, nr := verdict(storedQ); !nr && w != passed {
+		h.fail("C15:stored-quorum-not-used", fmt.Sprintf("proposal %d (%v): tally yes=%s abstain=%s no=%s veto=%s of %s bonded; the quorum in force for its lookup key %q is %s (stored=%v, default %s): it should pass=%v, it ended with status %d",
+			p.ID, info.URLs, yes, abst, no, veto, tb, h.liveKey(info), storedQ, stored, defQ, w, q.Status))
+	}
 	want, near := verdict(typeQ)
 	if near {
 		return
@@ -2009,7 +2064,8 @@ func (h *hist) genCancel() {
 
 func (h *hist) genCustom() {
 	r := h.r
-	key := []int{tyEGF, tyEGF, tyToggle, tyText, tySend, tyXParams, tyAny}[r.Intn(7)]
+	// the keys that are live with the lookup as it is ("/google.protobuf.Any", "") get half of the weight
+	key := []int{tyEGF, tyEGF, tyToggle, tyText, tySend, tyXParams, tyAny, tyAny, tyAny, tyAny, tyNone, tyNone}[r.Intn(12)]
 	if h.class == "plain" {
 		// no per-type configuration in this class: only requests that must be refused
 		d := 24 * time.Hour
@@ -2024,11 +2080,12 @@ func (h *hist) genCustom() {
 		h.opCustom(!r.Chance(15), key, nil)
 		return
 	}
-	d := []time.Duration{time.Hour, 6 * time.Hour, 24 * time.Hour, 5 * 24 * time.Hour, 14 * 24 * time.Hour, 20 * 24 * time.Hour}[r.Intn(6)]
+	d := []time.Duration{time.Second, time.Hour, 6 * time.Hour, 24 * time.Hour, 5 * 24 * time.Hour, 14 * 24 * time.Hour, 20 * 24 * time.Hour}[r.Intn(7)]
 	cp := &fxgovtypes.CustomParams{
-		DepositRatio: []string{"0", "0.1", "0.1", "0.5", "0.000001", "1"}[r.Intn(6)],
+		DepositRatio: []string{"0", "0.1", "0.1", "0.5", "0.000001", "1", "0.000000000000000001"}[r.Intn(7)],
 		VotingPeriod: &d,
-		Quorum:       []string{"0", "0.1", "0.25", "0.4", "0.9", "1"}[r.Intn(6)],
+		// every boundary of [0,1]: exactly 0, the smallest positive Dec, exactly 1
+		Quorum: []string{"0", "0", "0.000000000000000001", "0.1", "0.25", "0.4", "0.9", "1"}[r.Intn(8)],
 	}
 	if r.Chance(6) {
 		cp.Quorum = "1.5"
